@@ -12,7 +12,7 @@
 //
 //	delivery  a Publish that starts after sub.done of (notifier, key) and returns before the
 //	          notifier's error channel is closed delivers the message to it at least once,
-//	          under that key; per publisher the messages of a key arrive in publication order;
+//	          under that key; per publisher the first deliveries of the messages of a key are in publication order;
 //	silence   a Publish that starts after unsub.done of (notifier, key) delivers nothing to
 //	          that notifier under that key.
 package c40
@@ -197,10 +197,14 @@ func TestStepwiseHistories(t *testing.T) {
 		publish := func(kind, param string, array bool, probeFor *nmodel) {
 			seq++
 			m := Msg{Param: param, Pub: 0, Seq: seq}
+			judged := []Msg{m}
 			if array {
-				// the message travels with two companions for other parameters
-				list := []interface{}{Msg{Param: "zz", Pub: 0, Seq: -seq}, m, Msg{Param: "", Pub: 0, Seq: -seq}}
-				ops = append(ops, fmt.Sprintf("PublishArray(ns,%s,field Param,[zz,%q,\"\"]) #%d", kind, param, seq))
+				// two numbered messages for the parameter, between companions for other parameters
+				seq++
+				m2 := Msg{Param: param, Pub: 0, Seq: seq}
+				judged = append(judged, m2)
+				list := []interface{}{Msg{Param: "zz", Pub: 0, Seq: -seq}, m, m2, Msg{Param: "", Pub: 0, Seq: -seq}}
+				ops = append(ops, fmt.Sprintf("PublishArray(ns,%s,field Param,[zz,%q,%q,\"\"]) #%d,#%d", kind, param, param, seq-1, seq))
 				_ = sp.PublishArray("ns", kind, "Param", list)
 				run.Stat("publish_array_calls", 1)
 			} else {
@@ -208,29 +212,31 @@ func TestStepwiseHistories(t *testing.T) {
 				_ = sp.Publish("ns", kind, param, m)
 				run.Stat("publish_calls", 1)
 			}
-			for _, nm := range ms {
-				for _, key := range keysOfPublish(kind, param) {
-					got := nm.n.count(key, m)
-					w := map[string]interface{}{"notifier": nm.n.id, "key": key, "message": seq, "deliveries": got, "subscriptions_of_notifier": nm.order}
-					switch {
-					case nm.gone[key] && got > 0:
-						fk := "delivered-after-unsubscribe"
-						if nm.subs[key] >= 2 {
-							fk = "delivered-after-unsubscribe-of-duplicate-subscription"
+			for _, m := range judged {
+				for _, nm := range ms {
+					for _, key := range keysOfPublish(kind, param) {
+						got := nm.n.count(key, m)
+						w := map[string]interface{}{"notifier": nm.n.id, "key": key, "message": m.Seq, "deliveries": got, "subscriptions_of_notifier": nm.order}
+						switch {
+						case nm.gone[key] && got > 0:
+							fk := "delivered-after-unsubscribe"
+							if nm.subs[key] >= 2 {
+								fk = "delivered-after-unsubscribe-of-duplicate-subscription"
+							}
+							c.Viol(fk, fmt.Sprintf("notifier %d received message #%d under %s although its unregistration for that key had been processed (it had subscribed to the key %d time(s))", nm.n.id, m.Seq, key, nm.subs[key]), wit(w))
+						case !nm.left && nm.subs[key] > 0 && got == 0:
+							c.Viol("message-lost", fmt.Sprintf("notifier %d did not receive message #%d under %s (subscribed %d time(s), registration processed, not left)", nm.n.id, m.Seq, key, nm.subs[key]), wit(w))
 						}
-						c.Viol(fk, fmt.Sprintf("notifier %d received message #%d under %s although its unregistration for that key had been processed (it had subscribed to the key %d time(s))", nm.n.id, seq, key, nm.subs[key]), wit(w))
-					case !nm.left && nm.subs[key] > 0 && got == 0:
-						c.Viol("message-lost", fmt.Sprintf("notifier %d did not receive message #%d under %s (subscribed %d time(s), registration processed, not left)", nm.n.id, seq, key, nm.subs[key]), wit(w))
-					}
-					if nm.gone[key] {
-						run.Stat("silence_checks", 1)
-					} else if !nm.left && nm.subs[key] > 0 {
-						run.Stat("delivery_checks", 1)
-						if got > 1 {
-							see("message-delivered-once-per-duplicate-subscription")
-						}
-						if key == keyOf(kind, "") && param != "" {
-							see("namespace-wide-subscriber-gets-parameterised-message")
+						if nm.gone[key] {
+							run.Stat("silence_checks", 1)
+						} else if !nm.left && nm.subs[key] > 0 {
+							run.Stat("delivery_checks", 1)
+							if got > 1 {
+								see("message-delivered-once-per-duplicate-subscription")
+							}
+							if key == keyOf(kind, "") && param != "" {
+								see("namespace-wide-subscriber-gets-parameterised-message")
+							}
 						}
 					}
 				}
@@ -359,17 +365,21 @@ func TestStepwiseHistories(t *testing.T) {
 		}
 		publish("ka", "p1", false, nil)
 		publish("kb", "", false, nil)
-		// order: under each key a notifier sees message numbers non-decreasing
+		// order: under each key, the first deliveries of the messages are in publication order
+		// (a notifier subscribed k times legitimately sees k interleaved in-order streams)
 		for _, nm := range ms {
 			last := map[string]int{}
+			seen := map[delivery]bool{}
 			for _, d := range nm.n.snapshot() {
-				if d.msg.Seq < 0 {
-					continue // PublishArray companions
+				if d.msg.Seq < 0 || seen[d] {
+					continue // PublishArray companions; repeated deliveries
 				}
+				seen[d] = true
 				if d.msg.Seq < last[d.key] {
-					c.Viol("out-of-order", fmt.Sprintf("notifier %d received #%d after #%d under %s", nm.n.id, d.msg.Seq, last[d.key], d.key), wit(nil))
+					c.Viol("out-of-order", fmt.Sprintf("notifier %d first received #%d after #%d under %s", nm.n.id, d.msg.Seq, last[d.key], d.key), wit(map[string]interface{}{"subscriptions_of_notifier": nm.order}))
 				}
 				last[d.key] = d.msg.Seq
+				run.Stat("order_checks", 1)
 			}
 		}
 		var keys []string
@@ -426,6 +436,7 @@ func TestLeaveBeforeRegistrationProcessed(t *testing.T) {
 		_ = sp.Publish("ns", "ka", "p1", m)
 		got := second.count(keyOf("ka", "p1"), m)
 		run.Stat("order/"+strings.Join(order, ","), 1)
+		run.Stat("early_leave_cases", 1)
 		if got > 0 {
 			c.Viol("delivered-after-unsubscribe-processed-before-subscribe",
 				fmt.Sprintf("notifier received a message published after both its registration and its unregistration had been processed (order %v)", order),
@@ -462,7 +473,7 @@ func TestConcurrentPublishers(t *testing.T) {
 	run := obs.Start(t, "C40")
 	defer run.Done()
 	run.Rule("per case: 1-4 publisher goroutines publish 150 numbered messages each to random keys while one churn goroutine subscribes new notifiers (1-3 times to 1-2 keys) and closes error channels of others, awaiting every hook event; a logical clock (atomic counter) orders Publish start/end against sub.done / close / last unsub.done; distinct = (publishers, notifiers joined, notifiers left, duplicate subscriptions present); non-trivial = at least one notifier joined and one left while messages were being published",
-		"must-deliver: Publish started after the sub.done tick and returned before the close tick; must-not-deliver: Publish started after the notifier's last unsub.done tick; per (notifier, key, publisher) sequence numbers non-decreasing")
+		"must-deliver: Publish started after the sub.done tick and returned before the close tick; must-not-deliver: Publish started after the notifier's last unsub.done tick; per (notifier, key, publisher) the first deliveries of the messages are in publication order")
 	n := run.N(120, 1200)
 	for k := 0; k < n; k++ {
 		c := run.Begin(fmt.Sprintf("conc/%d", k), nil)
@@ -578,9 +589,13 @@ func TestConcurrentPublishers(t *testing.T) {
 					got[d.key] = map[Msg]int{}
 				}
 				got[d.key][d.msg]++
+				if got[d.key][d.msg] > 1 {
+					continue // repeated delivery (duplicate subscription): first deliveries are judged
+				}
 				ok := fmt.Sprintf("%s/%d", d.key, d.msg.Pub)
+				run.Stat("order_checks", 1)
 				if d.msg.Seq < lastSeq[ok] {
-					c.Viol("out-of-order", fmt.Sprintf("notifier %d received message %d of publisher %d after message %d under %s", cn.n.id, d.msg.Seq, d.msg.Pub, lastSeq[ok], d.key),
+					c.Viol("out-of-order", fmt.Sprintf("notifier %d first received message %d of publisher %d after message %d under %s", cn.n.id, d.msg.Seq, d.msg.Pub, lastSeq[ok], d.key),
 						map[string]interface{}{"notifier_subscriptions": cn.keys})
 				}
 				lastSeq[ok] = d.msg.Seq
